@@ -1,7 +1,7 @@
 #!/bin/bash
 # Run every registered check (tier $1, default quick) sequentially; summary to $2 (default /tmp/runall.log)
 TIER=${1:-quick}; LOG=${2:-/tmp/runall.log}
-cd /verif; : > $LOG
+cd "$(dirname "$(readlink -f "$0")")/.."; : > $LOG
 for p in $(python3 -c "import json;print(' '.join(c['property_id'] for c in json.load(open('MANIFEST.json'))['checks']))"); do
   s=$(date +%s); out=$(timeout 3000 ./check $p $TIER 2>&1); rc=$?; e=$(date +%s)
   echo "$p rc=$rc t=$((e-s))s $(echo "$out" | grep -c '^VIOLATION') viol; $(echo "$out" | grep -c '^KNOWN-FINDING') known; $(echo "$out" | tail -1 | cut -c1-120)" >> $LOG
